@@ -1136,7 +1136,11 @@ def _run(ctx, with_model):
     # ---- the real command line loop
     cli_progs = [build_program([], [[T_SAFE[4][1], T_SAFE[1][1]]], []), build_program([], [[T_TWOCODES[0][1]]], [])]
     for _ in range(ctx.n(0, 6)):
-        cli_progs.append(build_program([], [[ctx.rng.choice(T_SAFE[1:])[1] for _ in range(3)]], []))
+        # no assignments: with pyanalyze's default settings unused_variable is on, and its diagnostics come out in
+        # set-iteration order, which differs between this process and the subprocess (C10's subject, not C16's)
+        pool = [t for n, t in T_SAFE if n in ("badarg", "badcall", "attr", "two-same-code", "cont-paren", "cont-paren3",
+                                              "cont-bslash-in-paren", "nested-if", "nested-try")]
+        cli_progs.append(build_program([], [[ctx.rng.choice(pool) for _ in range(3)]], []))
     for i, lines in enumerate(cli_progs):
         run_cli(ctx, lines, with_model, i)
 
